@@ -44,11 +44,6 @@ Proof.
 Qed.
 
 (* ------------------------------------------------------------------ streams of frames *)
-(* a packet that SendMsg can frame: well-formed and shorter than 2^32 bytes *)
-Definition sendable (p : packet) : Prop := wf_packet p /\ size_packet p < two32.
-(* [fr] is a frame of [p] for some map iteration order *)
-Definition frame_of (p : packet) (fr : bytes) : Prop :=
-  exists xs, Permutation xs (pxattrs p) /\ fr = frame (encode_packet_ord xs p).
 
 Lemma decode_packet_nil : decode_packet_u [] = Some (empty_packet, [], []).
 Proof. reflexivity. Qed.
@@ -131,7 +126,6 @@ Theorem buffer_is_concat recs : write_to (alloc_all recs) = concat recs.
 Proof. unfold alloc_all. rewrite write_to_fold. reflexivity. Qed.
 
 (* no chunk is ever longer than its capacity (the slices handed out never overlap or spill) *)
-Definition chunks_fit (b : list (bytes * N)) : Prop := Forall (fun c => len (fst c) <= snd c) b.
 Lemma alloc_write_fit b r : chunks_fit b -> chunks_fit (alloc_write b r).
 Proof.
   unfold chunks_fit, alloc_write. intros H.
